@@ -1055,8 +1055,32 @@ func ruleIDSources(r *Run) {
 	// where the ids go
 	m := r.M()
 	n := 0
+	var scan []*Func
+	seenFn := map[*Func]bool{}
 	for _, hi := range m.Handlers {
-		fn := hi.Fn
+		if !seenFn[hi.Fn] {
+			seenFn[hi.Fn] = true
+			scan = append(scan, hi.Fn)
+		}
+	}
+	// unexported helpers of the handlers' packages that only act on behalf of a handler
+	var hnames []string
+	for _, hi := range m.Handlers {
+		hnames = append(hnames, hi.Fn.Name)
+	}
+	for _, f2 := range r.P.All {
+		if seenFn[f2] || f2.Obj == nil || f2.Obj.Exported() {
+			continue
+		}
+		if f2.Pkg.PkgPath != pkgWS && !strings.HasPrefix(f2.Pkg.PkgPath, pkgModules+"/") {
+			continue
+		}
+		if r.onlyFrom(f2, hnames...) {
+			seenFn[f2] = true
+			scan = append(scan, f2)
+		}
+	}
+	for _, fn := range scan {
 		info := fn.Info()
 		ast.Inspect(fn.Body, func(nd ast.Node) bool {
 			cl, ok := nd.(*ast.CompositeLit)
@@ -1328,13 +1352,26 @@ func ruleFramePair(r *Run) {
 			path := &paths[pi]
 			r.at(path)
 			held := r.locksAlong(path, lockset{})
+			// the worker function instance is the one that waits on the stop channel
+			var worker *Func
+			for _, ev := range path.Events {
+				if ev.Kind == EvGuard && ev.GKind == GSelectCase {
+					if cl, ok := ev.Stmt.(*ast.CommClause); ok && cl.Comm != nil {
+						if es, ok := cl.Comm.(*ast.ExprStmt); ok {
+							if u, ok := ast.Unparen(es.X).(*ast.UnaryExpr); ok && r.P.Canon(ev.Fn, u.X) == "recv.closeFrameChan" {
+								worker = ev.Fn
+							}
+						}
+					}
+				}
+			}
 			for i, ev := range path.Events {
-				if ev.Kind == EvReturn && ev.Depth > 0 {
+				if ev.Kind == EvReturn && worker != nil && ev.Fn == worker {
 					// leaving the worker: only after the stop signal
 					okExit := false
 					for j := i - 1; j >= 0; j-- {
 						pe := path.Events[j]
-						if pe.Kind == EvChanOp && !pe.Send {
+						if pe.Kind == EvChanOp && !pe.Send && pe.Fn == worker {
 							okExit = r.P.Canon(pe.Fn, pe.Chan) == "recv.closeFrameChan"
 							break
 						}
